@@ -262,12 +262,13 @@ Definition batch_concat (xs : list shape) : option shape :=
 
 (* ------------------- FWD_SHAPE-only rules of operator_impl.cc ------------------- *)
 
-(* FWD_SHAPE(Split): every one of the n outputs has the returned shape *)
+(* FWD_SHAPE(Split): every one of the n outputs has the returned shape
+   (xs = shape_ops::slice(xs, dim_, 0, span) since the repair of the Node/Tensor split mismatch) *)
 Definition split (x : shape) (dim n : N) : option shape :=
   if n =? 0 then None else
   let total := get x dim in
   let span := total / n in
-  if negb (wrap32 (span * n) =? total) then None else update_dim x dim span.
+  if negb (wrap32 (span * n) =? total) then None else slice x dim 0 span.
 
 Definition batch_split (x : shape) (n : N) : option shape :=
   if n =? 0 then None else
